@@ -38,6 +38,9 @@ func genC08(seed uint64, run int, tier string) Scenario {
 	n := between(r, 2, 12)
 	if tier == "quick" {
 		n = between(r, 2, 6)
+		if r.IntN(6) == 0 {
+			n = between(r, 9, 14)
+		}
 	}
 	for i := 0; i < n; i++ {
 		mode := pick(r, "now", "now", "now", "late", "never")
@@ -116,6 +119,13 @@ func runC08(env *Env, s Scenario) {
 		env.Fault("peer-reply-"+mode, 1)
 		if rec.Err == nil {
 			m := c08MidRe.FindStringSubmatch(rec.Result)
+			if strings.Contains(rec.Result, "<hello") && sc.Server.Echo {
+				// known finding: the client's own echoed hello + the beginning of the echoed
+				// request were filed as the reply
+				env.Fail("own-echo-returned-as-reply", "", "call %d (request %d, message-id %s) returned the transport's echo of the client's own bytes: %q", j, rec.ReqIndex, own, firstN(rec.Result, 300))
+
+				continue
+			}
 			if m == nil || m[1] != own {
 				env.Fail("reply-to-another-request", "", "call %d (request %d, message-id %s, server behaviour %s) returned %q", j, rec.ReqIndex, own, mode, firstN(rec.Result, 200))
 			}
